@@ -153,7 +153,7 @@ fn target_strategy() -> impl Strategy<Value = FeOp> {
 pub fn run(ctx: &mut Ctx) {
     ctx.rule = "for every reply-bearing operation and every acknowledged set-operation: a scripted handler outcome from {success with lattice values / \
                 generated config bytes / with or without file, Err(16 error variants), unusable success (config bytes of length 0, n+-k, 4096; \
-                queue count 0x8001 / 2^64-1)} x REPLY_ACK on/off x NEED_REPLY on/off, after a prefix of 0..5 successful calls; both real endpoints, \
+                queue count 0x8001 / 2^64-1)} x REPLY_ACK on/off x NEED_REPLY on/off x {virtio features acknowledged with bit 30, without it, never}, after a prefix of 0..5 successful calls; both real endpoints, \
                 server with the daemon's stop-at-first-error policy; the call runs in a helper thread so that a call that never returns is seen. \
                 Non-trivial = a failing / unusable outcome, a success with a file or a non-zero value; distinct by (operation, outcome class, \
                 ack configuration, prefix length class)."
@@ -168,7 +168,14 @@ pub fn run(ctx: &mut Ctx) {
         // the gates must be open: all features offered and acknowledged, REPLY_ACK varies with ack_pf
         n.dev_features = spec::VIRTIO_F_PROTOCOL_FEATURES | 0x1_2000_0003;
         n.dev_pf = 0x3f_ffff & !(1 << 8);
-        n.ack_vf = Some(n.dev_features);
+        // mostly the usual order (all virtio features acknowledged before the protocol features); sometimes the protocol
+        // features are negotiated while VHOST_USER_F_PROTOCOL_FEATURES is only offered (SET_FEATURES absent or without bit 30):
+        // the front end awaits acknowledgements in that state too
+        n.ack_vf = match n.ack_vf {
+            None => None,
+            Some(v) if v & spec::VIRTIO_F_PROTOCOL_FEATURES == 0 => Some(n.dev_features & !spec::VIRTIO_F_PROTOCOL_FEATURES),
+            Some(_) => Some(n.dev_features),
+        };
         n.ack_pf = Some(match n.ack_pf {
             Some(p) if p & 8 == 0 => 0x3f_ffff & !8,
             _ => 0x3f_ffff,
